@@ -115,7 +115,7 @@ func verifConnScenario() {
 // VerifC01_ConnectionFlushesBeforeEnd: link L0 of the custody chain.
 //
 //verif:native off
-//verif:preempt 0
+//verif:preempt 1
 //verif:delays 1
 //verif:clock virtual
 //verif:reach client-closed stopped
@@ -135,7 +135,7 @@ func VerifC08_ConnectionFlushTiming() { verifConnScenario() }
 // VerifC18_ConnectionStops: a stop request ends a connection handler that is blocked reading.
 //
 //verif:native off
-//verif:preempt 0
+//verif:preempt 1
 //verif:delays 1
 //verif:clock virtual
 //verif:reach client-closed stopped
